@@ -2,6 +2,7 @@ SPECIFICATION MCSpec
 CONSTANTS Mode = "sort"
           Vals = {0, 1}
           MaxLen = 5
+          MaxHeld = 0
 VIEW View
 INVARIANTS TypeOK Satisfiable RefSortAccepted RefusesBad SortedResult
 PROPERTIES Frame
